@@ -5,3 +5,4 @@ open AC.Props.C16
 #print axioms C16_names_legal
 #print axioms C16_faithful
 #print axioms C16_of_program
+#print axioms C16_naming_constants
